@@ -127,6 +127,29 @@ CHECKS = {
 NOT_YET = {}
 
 
+# workload strata added in the fourth round of independent seeding (DESIGN.md 9.5(d), "Round 4"): appended to the level text
+ROUND4 = {
+    "C02": "Mixed-scale states (trace components 1e-18..1e-24) with the increment identity judged component by component; stiff single calls under the library's own controller with a small solution and rtol >> atol.",
+    "C03": "Right-hand sides defined on part of the state space (long trial steps with NaN error estimates) and an idle component under a purely relative tolerance: success implies finite, accurate rows.",
+    "C04": "Spans that are a whole number of steps plus a sliver, time shifts by 1e7..2e9, and the requested step changed through the dt setter between calls.",
+    "C05": "Per-component absolute tolerances (arrays) with every component judged in its own unit.",
+    "C06": "Histories in which the caller edits the newest recorded state in place between two calls.",
+    "C07": "State-dependent events whose root is bit-exactly a recorded row, with one-sided requests and sign-flipped twins.",
+    "C08": "Calls handed over from a call that monitored other functions (crossing in the first step) and event objects first monitored by another system with other attributes.",
+    "C09": "Vectorised dense queries before the terminal run, after the stop and after the continuation; event objects surveyed with other attributes first.",
+    "C10": "h / -h round trips on explicitly time-dependent separable Hamiltonians.",
+    "C11": "Steps handed back by the library's own controller after rejected attempts (requested direction of time, R(z) of the accepted step).",
+    "C13": "Systems whose method was assigned several times compared bit-for-bit with a fresh system holding the last method, before and after reset().",
+    "C14": "Batches solved before and after other public entry points of the library were used in the same process (purity).",
+    "C15": "Restricted-domain systems (log, sqrt) with guesses from which the iteration leaves the domain; a non-finite residual at a claimed root is a violation.",
+    "C16": "Wrappers built through rhs_prettifier (Jacobian attribute set before wrapping) and user wrappers handed to solve_ivp with and without args.",
+    "C17": "Every array asked in descending and shuffled orders; integer / reduced-precision arrays asked with float64 queries.",
+    "C18": "max_step such that the span is a whole number of steps plus a sliver; event roots bit-exactly on requested output times reported once each.",
+    "C19": "Six- and seven-level Richardson wrappers with dense output: every time inside a recorded step is answered by a piece that contains it.",
+    "C20": "Richardson wrappers of implicit bases; callbacks that grow the step after every recorded step (assignment following a rejected attempt).",
+}
+
+
 def main():
     ids = ["C%02d" % i for i in range(1, 21)]
     checks = []
@@ -134,6 +157,8 @@ def main():
         if pid not in CHECKS:
             continue
         level, tech, text, note, ref = CHECKS[pid]
+        if pid in ROUND4:
+            text = text.rstrip() + " " + ROUND4[pid]
         checks.append({
             "property_id": pid,
             "quick_cmd": "./check %s --tier quick" % pid,
